@@ -25,13 +25,16 @@
    transitive_bases (deduplicated, sorted), direct_bases and direct_derived - the marks are shown to stand for the model's
    `seen` / `marked` lists because every class draws a mark larger than any stored one.  std::sort is read as the model's
    stable insertion sort (its comparison `a->weight > b->weight` is matched by the translator); calculate_covariant_classes
-   is matched as a call per class, not translated.
+   is translated too (gen_covariant): the C++ function is a depth-first walk over direct_derived that does not revisit a class
+   whose set is already non-empty, the model recomputes on fuel; C04_source_covariant: they agree, and the walk terminates
+   within depth n + 1, whenever direct_derived has no cycle (a rank decreases along it: for the lattices update builds, the
+   number of bases grows from a class to its derived classes).
 
    Trusted in this tie: the parser and lowering of translators/lattice.py + _minicpp.py (the one dropped statement is the copy
    of static_vptr); class_map is an association list read through Policy::type_index = Model.Registry.proj. *)
 From Coq Require Import List NArith.
 Import ListNotations.
-From Y2 Require Import Model.Registry Model.Compile Model.MiniLat Gen.GenLat Proofs.LatSource.
+From Y2 Require Import Model.Registry Model.Compile Model.MiniLat Gen.GenLat Proofs.LatSource Proofs.CovSource.
 
 Theorem C08_source_lattice_front : forall R,
   let keys := class_keys R in
@@ -67,6 +70,23 @@ Theorem C06_source_lattice_back : forall tb1 n marks W0 cm M loc,
     m_tb s3 = tb3 /\ m_dir s3 = direct /\ m_der s3 = derived.
 Proof. exact src_lattice_back. Qed.
 Print Assumptions C06_source_lattice_back.
+
+Theorem C04_source_covariant : forall derived n rank,
+  (forall c d, In d (nth c derived []) -> rank d < rank c) -> (forall c d, In d (nth c derived []) -> d < n) -> (forall c, rank c <= n) ->
+  cv_all (S n) gen_covariant derived (seq 0 n) (repeat [] n) = Some (map (covariant n derived) (seq 0 n)).
+Proof. exact src_covariant. Qed.
+Print Assumptions C04_source_covariant.
+
+(* non-vacuity: the diamond's direct_derived table; rank = longest path downwards *)
+Example ex_cov :
+  let derived := [[]; [0]; [0]; [1; 2]] in
+  cv_all 5 gen_covariant derived (seq 0 4) (repeat [] 4) = Some [[0]; [0; 1]; [0; 2]; [0; 1; 2; 3]] /\
+  (forall c d, In d (nth c derived []) -> nth d [0; 1; 1; 2] 0 < nth c [0; 1; 1; 2] 0).
+Proof.
+  split; [vm_compute; reflexivity|].
+  intros [|[|[|[|c]]]] d H; cbn in H; try contradiction; repeat (destruct H as [<-|H]; [cbn; auto with arith|]); try contradiction.
+  destruct c; contradiction.
+Qed.
 
 (* non-vacuity of the second half: the closed table of the diamond below, with a duplicate, goes through the three loops *)
 Example ex_lat_back :
